@@ -21,6 +21,15 @@ ASSUMPTIONS = [
     "(the direct 'acc' surface sees every admitted connection)",
 ]
 EXHAUSTIVE = {"quick": False, "thorough": False}
+# when an internal signature (accept_loop, TokenSet) changes and c12 no longer builds, the full-server
+# scenarios still run: they use only the public API
+FALLBACK_BIN = "c12srv"
+
+
+def fallback_supports(case):
+    return case.startswith("srv ")
+
+
 os.environ["SV_TIMING_LOG"] = acc_gen.timing_log_path("C12")
 
 
@@ -48,9 +57,16 @@ def random_acc(rng, n, full, length, with_revoke=False):
             choices += ["c"] * 3
         if full:
             for k in b.handlers():
-                choices += ["l%d" % k, "e%d:%s" % (k, rng.choice(HANDLER_KINDS))]
+                # with pipelined followers already in the server's buffer only endings in which the SERVER closes
+                # end the connection for good (otherwise it goes on with the buffered request)
+                kinds = ["err500", "panic", "drop"] if k in b.unread else HANDLER_KINDS
+                choices += ["l%d" % k, "e%d:%s" % (k, rng.choice(kinds))]
+                if k not in b.unread and rng.random() < 0.2:
+                    choices += ["b%d:2" % k]
             for k in b.idle():
                 choices += ["q%d" % k, "e%d:%s" % (k, rng.choice(IDLE_KINDS))]
+                if rng.random() < 0.3:
+                    choices += ["b%d:%d" % (k, rng.choice([2, 3]))]
         else:
             for k in b.tokens():
                 choices += ["e%d" % k] * 2
@@ -66,6 +82,8 @@ def random_acc(rng, n, full, length, with_revoke=False):
             b.release(int(c[1:]))
         elif c[0] == "q":
             b.request(int(c[1:]))
+        elif c[0] == "b":
+            b.request(int(c[1:].split(":")[0]), int(c.split(":")[1]))
     return "%s %d %s" % ("srv" if full else "acc", n, " ".join(cmds))
 
 
